@@ -14,6 +14,7 @@ import (
 	"math/big"
 	"os"
 	"path/filepath"
+	"runtime/debug"
 	"strconv"
 	"strings"
 
@@ -310,6 +311,7 @@ type outcome struct {
 	key  []byte
 	addr common.Address
 	pv   interface{}
+	stk  string // goroutine stack at the panic
 }
 
 func canonKey(k *keystore.Key, plain []byte) []byte {
@@ -325,21 +327,60 @@ func canonKey(k *keystore.Key, plain []byte) []byte {
 	return got
 }
 
-func observe(f func() (*keystore.Key, error), plain []byte) outcome {
-	var o outcome
-	p, pv := vh.CatchPanic(func() {
-		k, err := f()
-		if err != nil {
-			o.s = "err"
-			return
+func observe(f func() (*keystore.Key, error), plain []byte) (o outcome) {
+	defer func() {
+		if r := recover(); r != nil {
+			o = outcome{s: "panic", pv: r, stk: string(debug.Stack())}
 		}
-		o.key, o.addr, o.ok = canonKey(k, plain), k.Address, true
-		o.s = "ok " + vh.Hex(o.key) + " " + vh.Hex(k.Address[:])
-	})
-	if p {
-		o = outcome{s: "panic", pv: pv}
+	}()
+	k, err := f()
+	if err != nil {
+		o.s = "err"
+		return
 	}
-	return o
+	o.key, o.addr, o.ok = canonKey(k, plain), k.Address, true
+	o.s = "ok " + vh.Hex(o.key) + " " + vh.Hex(k.Address[:])
+	return
+}
+
+// panicClass maps a panic of DecryptKey/GetKey to the mechanism it came from, by
+// the panic value and the frames on the stack; "" = not a recognised mechanism.
+func panicClass(o outcome) string {
+	if o.s != "panic" {
+		return ""
+	}
+	pv := fmt.Sprint(o.pv)
+	has := func(fr string) bool { return strings.Contains(o.stk, fr) }
+	switch {
+	case strings.Contains(pv, "interface conversion") && (has("keystore.getKDFKey") || has("keystore.ensureInt")):
+		return "kdfparams" // x.(string) / x.(float64) on a missing or mistyped kdfparams member
+	case strings.Contains(pv, "divide by zero") && has("scrypt.Key"):
+		return "kdfparams" // r or p = 0: scrypt.Key divides by them before validating
+	case strings.Contains(pv, "IV length") && (has("cipher.NewCTR") || has("cipher.NewCBCDecrypter")):
+		return "iv-length"
+	case (strings.Contains(pv, "slice bounds out of range") && (has("keystore.decryptKeyV3") || has("keystore.decryptKeyV1")) && !has("cipher.")) ||
+		((strings.Contains(pv, "makeslice") || strings.Contains(pv, "cap out of range") || strings.Contains(pv, "slice bounds out of range")) && has("pbkdf2.Key")):
+		return "dklen"
+	}
+	return ""
+}
+
+// onlyIVDiffers: both documents parse, every member the code looks at is identical
+// except the IV string, and the new IV is a well-formed 16-byte value
+func onlyIVDiffers(a, b parsed) bool {
+	if !a.ok || !b.ok || !a.ivOK || len(a.iv) != 16 {
+		return false
+	}
+	ta, tb := strings.Split(a.tok, ","), strings.Split(b.tok, ",")
+	if len(ta) != len(tb) {
+		return false
+	}
+	for i := range ta {
+		if i != 8 && ta[i] != tb[i] {
+			return false
+		}
+	}
+	return ta[8] != tb[8]
 }
 
 // ------------------------------------------------------------ file construction
@@ -488,7 +529,7 @@ func (h *harness) check(class string, spec fileSpec, js []byte, pass string, tam
 	}
 	if pass != spec.pass {
 		if d.ok || g.ok {
-			if len(spec.pass) < 64 && strings.TrimRight(pass, "\x00") == spec.pass {
+			if tamper == "" && len(spec.pass) < 64 && len(pass) <= 64 && strings.TrimRight(pass, "\x00") == spec.pass {
 				c.Violate("passphrase-trailing-nul-equivalent", "unlocking succeeds with the passphrase followed by NUL bytes: HMAC zero-pads keys shorter than its block, so PBKDF2 and scrypt derive the same key for p and p||0x00 (the KDF does not separate these passphrases)", rp)
 			} else {
 				c.Violate("wrong-passphrase-accepted/"+strconv.Quote(pass)+"/"+string(js), "unlocking succeeded with a different passphrase", rp)
@@ -503,22 +544,29 @@ func (h *harness) check(class string, spec fileSpec, js []byte, pass string, tam
 	if g.ok && (!bytes.Equal(g.key, spec.kb) || g.addr != spec.addr) {
 		c.Violate("getkey-yields-other-key/"+tamper+"/"+string(js), "GetKey returned a different key or address after tampering", rp)
 	}
-	if g.s == "panic" || d.s == "panic" {
-		pv := fmt.Sprint(d.pv) + fmt.Sprint(g.pv)
-		switch {
-		case strings.Contains(pv, "interface conversion") || strings.Contains(pv, "slice bounds out of range") || strings.Contains(pv, "makeslice") || strings.Contains(pv, "cap out of range") || strings.Contains(pv, "divide by zero"):
+	for _, o := range []outcome{d, g} {
+		if o.s != "panic" {
+			continue
+		}
+		rp["panic"] = fmt.Sprint(o.pv)
+		switch cl := panicClass(o); {
+		case cl == "kdfparams" && ps.ok:
 			c.Count("panic-class/kdfparams/" + tamper)
-			c.Violate("decryptkey-panics-malformed-kdfparams", "DecryptKey/GetKey panic on a key file whose kdfparams member is missing or has the wrong type or range (getKDFKey / ensureInt type assertions, derivedKey[16:32] beyond the KDF output)", rp)
-		case strings.Contains(pv, "IV length"):
+			c.Violate("decryptkey-panics-malformed-kdfparams", "DecryptKey/GetKey panic on a key file whose kdfparams member is missing or mistyped (getKDFKey / ensureInt type assertions) or whose scrypt r/p is 0 (division inside scrypt.Key)", rp)
+		case cl == "iv-length" && ps.ok && !(ps.ivOK && len(ps.iv) == 16):
 			c.Count("panic-class/iv-length/" + tamper)
 			c.Violate("decryptkey-panics-bad-iv-length", "DecryptKey/GetKey panic on a key file whose IV is not 16 bytes (cipher.NewCTR / NewCBCDecrypter); the MAC does not cover the IV", rp)
+		case cl == "dklen" && ps.ok && ps.dklenOK && ps.dklen <= 0:
+			c.Count("panic-class/dklen/" + tamper)
+			c.Violate("decryptkey-panics-dklen-out-of-range", "DecryptKey/GetKey panic when kdfparams.dklen is 0 or negative (derivedKey[16:32] beyond the KDF output, or makeslice inside pbkdf2.Key)", rp)
 		default:
-			c.Violate("decryptkey-panic/"+tamper+"/"+string(js), "DecryptKey/GetKey panic on a tampered key file", rp)
+			c.Violate("decryptkey-panic/"+tamper+"/"+fmt.Sprint(o.pv)+"/"+string(js), "DecryptKey/GetKey panic on a tampered key file", rp)
 		}
+		break
 	}
 	// bare DecryptKey (Import, Export use it without an address comparison)
 	if d.ok && (!bytes.Equal(d.key, spec.kb) || d.addr != spec.addr) {
-		if strings.HasPrefix(tamper, "iv") {
+		if onlyIVDiffers(ps, parseFile(spec.js)) {
 			c.Violate("decryptkey-iv-not-authenticated", "bare DecryptKey returns a different key after an IV edit: the Web3 secret-storage MAC does not cover the IV (GetKey rejects it through the address comparison)", rp)
 		} else {
 			c.Violate("decryptkey-yields-other-key/"+tamper+"/"+string(js), "DecryptKey returned a different key after tampering", rp)
